@@ -335,7 +335,29 @@ func init() {
 				l.BaseArray = append(l.BaseArray, make([]anchor.Table, nc))
 			}
 			reflect.ValueOf(&l.BaseArray[nb-1][nc-1].X).Elem().SetInt(7)
-			if _, err := gtab.VerifReadGposSubtable(gtab.VerifSubtableEncode(l), 0, 4); err != nil {
+			var b []byte
+			if guard(func() string { b = gtab.VerifSubtableEncode(l); return "" }) != "" {
+				return "ok" // refused by the encoder (repair 19)
+			}
+			if _, err := gtab.VerifReadGposSubtable(b, 0, 4); err != nil {
+				return "fail:" + errKind(err)
+			}
+			return "ok"
+		}))
+	}
+	// the reader accepts what the encoder of a context subtable wrote (or the encoder refuses)
+	ops["otl.ctx.rt"] = func(f Fields) string {
+		return canonPanic(guard(func() string {
+			st := otlCtxFromFields(f)
+			var b []byte
+			if guard(func() string { b = gtab.VerifSubtableEncode(st); return "" }) != "" {
+				return "ok"
+			}
+			tp := uint16(5)
+			if f["st"][0] == 'C' {
+				tp = 6
+			}
+			if _, err := gtab.VerifReadGsubSubtable(b, 0, tp); err != nil {
 				return "fail:" + errKind(err)
 			}
 			return "ok"
@@ -2748,6 +2770,9 @@ func otlGenCtxShapes(c *Ctx) {
 		x := otlCtxFromFields(f)
 		b := gtab.VerifSubtableEncode(x)
 		c.Case(Direct, "otl.ctx.len", fmt.Sprintf("%s size=%d declared=%d", args, len(b), gtab.VerifSubtableEncodeLen(x)), true)
+		if !strings.Contains(args, "covs= ") && !strings.Contains(args, "input= ") {
+			c.Case(Direct, "otl.ctx.rt", args, true)
+		}
 		if len(b) <= 2500 {
 			real, line := otlRealLL(f)
 			c.Case(Direct, "otl.ll.prop", fmt.Sprintf("ll=%s ext=7 data=%s %s", line, hx(gtab.VerifEncodeLookupList(real)), args), true)
@@ -2773,6 +2798,75 @@ func otlGenCtxShapes(c *Ctx) {
 			q[k] = "9/1/>0:1"
 		}
 		emit("C1", fmt.Sprintf("st=C1 cov=10 sets=%s", strings.Join(q, ",")))
+	}
+	// crafted: component / input glyph count 0 (REPAIRED C02-zero-count: refused; `count-1` in uint16 used to
+	// ask for 65535 glyphs, and with enough data behind it the rule was accepted)
+	words := func(ws ...int) []byte {
+		b := make([]byte, 0, 2*len(ws))
+		for _, w := range ws {
+			b = append(b, byte(w>>8), byte(w))
+		}
+		return b
+	}
+	for _, trailing := range []int{0, 40, 2 * 65540} {
+		z := make([]byte, trailing)
+		g41 := append(words(1, 8, 1, 14, 1, 1, 5, 1, 4, 7, 0), z...)
+		o := c.Case(Verdict, "otl.gsub.read", "type=4 data="+hx(g41), true)
+		c.Stat("zero-count", fmt.Sprintf("gsub4.1,trailing=%d:%s", trailing, outcomeClass(o)))
+		c1 := append(words(1, 8, 1, 14, 1, 1, 5, 1, 4, 0, 0), z...)
+		o = c.Case(Verdict, "otl.gsub.read", "type=6 data="+hx(c1), true)
+		c.Stat("zero-count", fmt.Sprintf("chained1,trailing=%d:%s", trailing, outcomeClass(o)))
+		c2 := append(words(2, 14, 20, 24, 28, 1, 32, 1, 1, 5, 2, 0, 2, 0, 2, 0, 1, 4, 0, 0), z...)
+		o = c.Case(Verdict, "otl.gsub.read", "type=6 data="+hx(c2), true)
+		c.Stat("zero-count", fmt.Sprintf("chained2,trailing=%d:%s", trailing, outcomeClass(o)))
+		// control: count 1 (no further glyphs) is fine
+		g41b := append(words(1, 8, 1, 14, 1, 1, 5, 1, 4, 7, 1), z...)
+		o = c.Case(Verdict, "otl.gsub.read", "type=4 data="+hx(g41b), true)
+		c.Stat("zero-count", fmt.Sprintf("gsub4.1-count1,trailing=%d:%s", trailing, outcomeClass(o)))
+		c1b := append(words(1, 8, 1, 14, 1, 1, 5, 1, 4, 0, 1, 0, 0), z...)
+		o = c.Case(Verdict, "otl.gsub.read", "type=6 data="+hx(c1b), true)
+		c.Stat("zero-count", fmt.Sprintf("chained1-count1,trailing=%d:%s", trailing, outcomeClass(o)))
+	}
+	// format 3 without (input) coverage: written by the encoders, rejected by the readers (known finding
+	// C08-context3-no-input, D otl.ctx.rt)
+	emit("c3", "st=c3 covs= acts=0:1")
+	emit("c3", "st=c3 covs= acts=")
+	emit("C3", "st=C3 back=5 input= look=6 acts=0:1")
+	emit("C3", "st=C3 back= input= look= acts=")
+	c.Case(Verdict, "otl.gsub.read", "type=5 data=000300000000", true)
+	c.Case(Verdict, "otl.gsub.read", "type=6 data=00030000000000000000", true)
+	// limits of the readers that the encoders now enforce (repairs 18, 19)
+	for _, nb := range []int{6552, 6553} {
+		for _, st := range []string{"41", "61"} {
+			rows := make([]string, nb)
+			for k := range rows {
+				rows[k] = "0.0,0.0,0.0,0.0,0.0"
+			}
+			rows[nb-1] = "0.0,0.0,0.0,0.0,7.8"
+			args := fmt.Sprintf("st=%s mcov=40000 bcov=%s marks=4.1.1 bases=%s", st, otlRunsString([]otlRun{{0, nb - 1, 0}}, false), strings.Join(rows, ";"))
+			out := c.Case(Verdict, "otl.gpos.encode", args, true)
+			c.Stat("reader-limit", fmt.Sprintf("gpos%s,%dx5:%s", st, nb, outcomeClass(out)))
+			if strings.HasPrefix(out, "ok:") {
+				b := gtab.VerifSubtableEncode(otlGposFromFields(parseFields(args)))
+				o := c.Case(Verdict, "otl.gpos.read", fmt.Sprintf("type=%s data=%s", st[:1], hx(b)), true)
+				c.Stat("reader-limit", fmt.Sprintf("gpos%s,%dx5:read:%s", st, nb, outcomeClass(o)))
+			}
+		}
+	}
+	for _, n1 := range []int{255, 256} {
+		row := strings.TrimSuffix(strings.Repeat("-/-,", 256), ",")
+		rows := make([]string, n1)
+		for k := range rows {
+			rows[k] = row
+		}
+		args := fmt.Sprintf("st=22 cov=0-9 c1=5:1 c2=7:1 rows=%s", strings.Join(rows, ";"))
+		out := c.Case(Verdict, "otl.gpos.encode", args, true)
+		c.Stat("reader-limit", fmt.Sprintf("gpos22,%dx256:%s", n1, outcomeClass(out)))
+		if strings.HasPrefix(out, "ok:") {
+			b := gtab.VerifSubtableEncode(otlGposFromFields(parseFields(args)))
+			o := c.Case(Verdict, "otl.gpos.read", "type=2 data="+hx(b), true)
+			c.Stat("reader-limit", fmt.Sprintf("gpos22,%dx256:read:%s", n1, outcomeClass(o)))
+		}
 	}
 	// no rule sets at all
 	emit("c1", "st=c1 cov= sets=")
